@@ -319,6 +319,13 @@ def rule_a11_trim(ctx):
                          ('decimal comma refused', 'self.COMMA_CHAR in numbers')):
         tests = [n for n in walk_own(f.node) if isinstance(n, ast.If) and norm(n.test) == needle and any(isinstance(s, ast.Raise) for s in n.body)]
         ctx.ob('A11.canon', f, what, bool(tests), 'guard `%s` with raising arm: %s' % (needle, bool(tests)))
+    # every "does the value contain this character" test looks at the whole value, not at a window of it
+    for n in walk_own(f.node):
+        if isinstance(n, ast.Compare) and len(n.ops) == 1 and isinstance(n.ops[0], (ast.In, ast.NotIn)) and norm(n.left).endswith('_CHAR'):
+            whole = not any(isinstance(x, (ast.Subscript, ast.Slice)) for x in ast.walk(n.comparators[0]))
+            ctx.ob('A11.canon', f, 'test `%s` scans the whole value' % norm(n)[:50], whole,
+                   'the character is looked for in a slice: a fraction longer than the window (.5000 without seconds) skips '
+                   'the canonicalisation and is emitted with its trailing zeros' if not whole else 'whole value', node=n)
     consts = {'Z_CHAR': ord('Z'), 'PLUS_CHAR': ord('+'), 'MINUS_CHAR': ord('-'), 'COMMA_CHAR': ord(','), 'DOT_CHAR': ord('.'), 'ZERO_CHAR': ord('0')}
     for k, v in consts.items():
         _, got = ctx.ev.class_attr(f.cls, k)
